@@ -101,6 +101,9 @@ pub fn drive_rot(args: &[String]) {
     let n: usize = arg_or(args, "--n", "30").parse().unwrap();
     let seed: u64 = arg_or(args, "--seed", "1").parse().unwrap();
     let mut d = Drv::new(&arg(args, "--out").expect("--out"), seed);
+    // every generated input is valid for the call it is passed to: a division by zero inside the code under test is
+    // an outcome of that code (NaN on floats), not an inconclusive sample
+    crate::q::set_strict_div(true);
     for _ in 0..n {
         rot_axis!(&mut d, rm, Mat4, 4, "x", rotation_x, rotated_x, rotate_x); rot_axis!(&mut d, cm, Mat4, 4, "x", rotation_x, rotated_x, rotate_x);
         rot_axis!(&mut d, rm, Mat4, 4, "y", rotation_y, rotated_y, rotate_y); rot_axis!(&mut d, cm, Mat4, 4, "y", rotation_y, rotated_y, rotate_y);
@@ -127,7 +130,12 @@ fn from_to_pair(d: &mut Drv) -> (Vec<Q>, Q, Vec<Q>, Q) {
     let mu = nzq(&mut d.rng);
     let mu = if mu < Q::int(0) { -mu } else { mu };
     match d.pick(5) {
-        0 => (f.clone(), fl, f.iter().map(|x| -*x * mu).collect(), fl * mu),            // exactly opposite
+        0 => {
+            // exactly opposite; half of the time `from` lies on a signed coordinate axis (the degenerate-axis choice
+            // of the code under test depends on which components vanish and on their signs)
+            let (f, fl) = if d.pick(2) == 0 { let mut a = vec![Q::int(0); 3]; let l = nzq(&mut d.rng); a[d.pick(3)] = l; (a, if l < Q::int(0) { -l } else { l }) } else { (f, fl) };
+            (f.clone(), fl, f.iter().map(|x| -*x * mu).collect(), fl * mu)
+        }
         1 => (f.clone(), fl, f.iter().map(|x| *x * mu).collect(), fl * mu),             // parallel
         _ => {
             // the square of a rational rotation: the half angle is rational too, so is the result of the code
@@ -223,6 +231,9 @@ pub fn drive_quat(args: &[String]) {
     let n: usize = arg_or(args, "--n", "30").parse().unwrap();
     let seed: u64 = arg_or(args, "--seed", "1").parse().unwrap();
     let mut d = Drv::new(&arg(args, "--out").expect("--out"), seed);
+    // every generated input is valid for the call it is passed to: a division by zero inside the code under test is
+    // an outcome of that code (NaN on floats), not an inconclusive sample
+    crate::q::set_strict_div(true);
     for _ in 0..n { quats(&mut d); }
     d.finish(arg(args, "--summary"));
 }
@@ -439,6 +450,9 @@ pub fn drive_view(args: &[String]) {
     let n: usize = arg_or(args, "--n", "30").parse().unwrap();
     let seed: u64 = arg_or(args, "--seed", "1").parse().unwrap();
     let mut d = Drv::new(&arg(args, "--out").expect("--out"), seed);
+    // every generated input is valid for the call it is passed to: a division by zero inside the code under test is
+    // an outcome of that code (NaN on floats), not an inconclusive sample
+    crate::q::set_strict_div(true);
     set_pair_mode(true);
     for _ in 0..n { views!(&mut d, rm); views!(&mut d, cm); }
     d.finish(arg(args, "--summary"));
